@@ -48,7 +48,12 @@ package ledger
 // The id is the double SHA-256 of the trace of the hashed header fields, in this order.
 //@ macro trI(t, x) = trApp(t, boxed(x))
 //@ spec func trFailedTxs(t trace, b *xldgpb.InternalBlock) trace ~ len(b.FailedTxs) + len(b.FailedTxs[""]) + (in(b.FailedTxs, "") ? 1 : 0)
-//@ spec func trJustify(t trace, b *xldgpb.InternalBlock) trace ~ len(b.Justify.ProposalId) + len(b.Justify.ProposalMsg) + b.Justify.Type + b.Justify.ViewNumber + len(b.Justify.SignInfos.QCSignInfos) + len(b.Justify.SignInfos.QCSignInfos[0].Address) + len(b.Justify.SignInfos.QCSignInfos[0].PublicKey) + len(b.Justify.SignInfos.QCSignInfos[0].Sign)
+// The quorum certificate enters the id completely: its four scalar fields, then address,
+// public key and signature of EVERY sign info, in order (trSigns: the first k of them).
+//@ macro qcSign(b, k) = b.Justify.SignInfos.QCSignInfos[k]
+//@ spec func trSigns(t trace, b *xldgpb.InternalBlock, k int) trace = k <= 0 ? t : trApp(trApp(trApp(trSigns(t, b, k - 1), boxed(bytes(qcSign(b, k - 1).Address))), boxed(bytes(qcSign(b, k - 1).PublicKey))), boxed(qcSign(b, k - 1).Sign))
+//@ macro trJBase(t, b) = trI(trI(trI(trI(t, b.Justify.ProposalId), b.Justify.ProposalMsg), b.Justify.Type), b.Justify.ViewNumber)
+//@ macro trJustify(t, b) = (b.Justify == nil ? t : (b.Justify.SignInfos == nil ? trJBase(t, b) : trSigns(trJBase(t, b), b, len(b.Justify.SignInfos.QCSignInfos))))
 //@ macro blkT1(b) = trI(trI(trI(trEmpty(), b.Version), b.Nonce), b.TxCount)
 //@ macro blkT2(b) = b.Proposer == nil ? blkT1(b) : trI(blkT1(b), b.Proposer)
 //@ macro blkT3(b) = trI(blkT2(b), b.Timestamp)
@@ -63,8 +68,10 @@ package ledger
 //@   noverify
 //@   ensures appends_failed_txs: result == nil ==> bufTrace == upd(old(bufTrace), buf, trFailedTxs(sel(old(bufTrace), buf), block))
 //@ func encodeJustify
-//@   noverify
+//@   property C08
+//@   requires buffer_is_not_the_block: buf != nil
 //@   ensures appends_justify: result == nil ==> bufTrace == upd(old(bufTrace), buf, trJustify(sel(old(bufTrace), buf), block))
+//@   loop 1 invariant every_sign_info_so_far: 0 <= $i && $i <= len($range) && $range == block.Justify.SignInfos.QCSignInfos && block.Justify != nil && block.Justify.SignInfos != nil && bufTrace == upd(old(bufTrace), buf, trSigns(trJBase(sel(old(bufTrace), buf), block), block, $i))
 
 //@ func MakeBlockID
 //@   property C08
